@@ -179,10 +179,7 @@ def lookup (k : Name) : Refs → Option Oid
   | (k', v) :: rest => if k = k' then some v else lookup k rest
 
 /-- Strictly increasing keys. -/
-def Sorted : Refs → Prop
-  | [] => True
-  | [_] => True
-  | a :: b :: rest => ltB a.1 b.1 = true ∧ Sorted (b :: rest)
+def Sorted (r : Refs) : Prop := r.Pairwise (fun a b => ltB a.1 b.1 = true)
 
 /-- `Refs::canonical` -/
 def canonical : Refs → Bytes
